@@ -1,4 +1,418 @@
-import Kap.Basic
+/-
+Driver for C08. Reads the cases printed by the Go harness (which ran the REAL alert service / TaskMaster over a
+real Bolt file, restarted on a copy of the file taken at each transaction boundary and continued), and for every
+crash point
+  1. evaluates the property (Kap/Spec/C08.lean) on the OBSERVED dumps of the two real runs  → SPECFAIL / KNOWN,
+  2. compares every observed dump with the model's (Kap/Model/C08.lean)                      → MISMATCH.
+-/
+import Kap.Spec.C08
+open Kap Kap.C08
 
-/-- Driver for property C08 (replaced by the property's driver). -/
-def main : IO Unit := Kap.driverMain (fun _ _ => .badop "driver not implemented")
+namespace Kap.C08.Drv
+
+abbrev Dump := List (String × List ES)
+
+def parseES (tok : String) : Option ES :=
+  match tok.splitOn "|" with
+  | [i, l, t] => do
+    let id ← unesc i; let lv ← l.toNat?; let tm ← t.toInt?
+    pure { id := id, level := lv, time := tm }
+  | _ => none
+
+def parseDump (tok : String) : Option Dump :=
+  if tok == "-" then some [] else
+  (tok.splitOn ";").mapM fun part =>
+    match part.splitOn "=" with
+    | [T, l] => do
+      let T ← unesc T
+      let es ← if l == "-" then some [] else (l.splitOn ",").mapM parseES
+      pure (T, es)
+    | _ => none
+
+def sortES (l : List ES) : List ES := l.mergeSort (fun a b => decide (a.id ≤ b.id))
+def sortTopics (d : Dump) : Dump := d.mergeSort (fun a b => decide (a.1 ≤ b.1))
+/-- canonical form of a state dump (entries by id) -/
+def canon (d : Dump) : Dump := sortTopics (d.map fun (T, es) => (T, sortES es))
+/-- canonical form of a handler log dump (entries keep their order) -/
+def canonLog (d : Dump) : Dump := sortTopics d
+
+def renderES (e : ES) : String := s!"{esc e.id}|{e.level}|{e.time}"
+def renderDump (d : Dump) : String :=
+  if d.isEmpty then "-" else
+  ";".intercalate (d.map fun (T, es) => esc T ++ "=" ++ (if es.isEmpty then "-" else ",".intercalate (es.map renderES)))
+
+def dumpOfStore (st : Store) (topics ids : List String) : Dump :=
+  canon (topics.map fun T => (T, ids.filterMap (st T)))
+
+def dumpOfTold (evs : List Ev) (topics : List String) : Dump :=
+  canonLog (topics.map fun T => (T, (evs.filter (·.topic == T)).map fun e => { id := e.id, level := e.level, time := e.time }))
+
+def lvOf (d : Dump) : Lv := fun T id =>
+  match d.find? (·.1 == T) with
+  | some (_, es) => (match es.find? (·.id == id) with | some e => e.level | none => 0)
+  | none => 0
+
+def presentIn (d : Dump) (T id : String) : Bool :=
+  match d.find? (·.1 == T) with
+  | some (_, es) => es.any (·.id == id)
+  | none => false
+
+def evsOf (d : Dump) : List Ev :=
+  d.flatMap fun (T, es) => es.map fun e => { topic := T, id := e.id, level := e.level, time := e.time }
+
+def idsOf (d : Dump) : List String := d.flatMap fun (_, es) => es.map (·.id)
+
+def dedup (l : List String) : List String := l.foldl (fun acc x => if acc.contains x then acc else acc ++ [x]) []
+
+/-- observation sections: `kw dump kw dump …` -/
+def sections (obs : List String) : Option (List (String × Dump)) :=
+  let rec go : List String → Option (List (String × Dump))
+    | [] => some []
+    | kw :: d :: rest => do
+      let dd ← parseDump d
+      let r ← go rest
+      pure ((kw, dd) :: r)
+    | _ => none
+  go obs
+
+def sec (s : List (String × Dump)) (kw : String) : Dump := ((s.find? (·.1 == kw)).map (·.2)).getD []
+
+inductive Mode where
+  | svc (topics : List String)
+  | node (cfg : Cfg)
+
+def anonName : String := "verif:c08task:alert2"
+def namedName : String := "named"
+
+def parseMode (ts : List String) : Option Mode :=
+  match ts with
+  | "mode" :: "svc" :: topics => (topics.mapM unesc).map Mode.svc
+  | ["mode", "node", a, n, s, r] =>
+    some (.node { anon := if a == "1" then some anonName else none, named := if n == "1" then some namedName else none,
+                  sco := s == "1", noRec := r == "1" })
+  | _ => none
+
+def parseOp (ts : List String) : Option Op :=
+  match ts with
+  | ["collect", T, i, l, t] => do pure (.collect (← unesc T) (← unesc i) (← l.toNat?) (← t.toInt?))
+  | ["update", T, i, l, t] => do pure (.update (← unesc T) (← unesc i) (← l.toNat?) (← t.toInt?))
+  | ["close", T] => do pure (.closeTopic (← unesc T))
+  | ["restore", T] => do pure (.restoreTopic (← unesc T))
+  | ["deltopic", T] => do pure (.deleteTopic (← unesc T))
+  | _ => none
+
+def parseNOp (ts : List String) : Option NOp :=
+  match ts with
+  | ["point", i, l, t] => do pure (.point (← unesc i) (← l.toNat?) (← t.toInt?))
+  | ["taskrestart"] => some .taskRestart
+  | _ => none
+
+def _root_.Kap.C08.Op.topic : Op → String
+  | .collect T .. | .update T .. | .closeTopic T | .restoreTopic T | .deleteTopic T => T
+def _root_.Kap.C08.Op.id? : Op → Option String
+  | .collect _ i .. | .update _ i .. => some i
+  | _ => none
+
+structure Acc where
+  known : Option (String × String) := none
+  branches : List String := []
+  nontrivial : Bool := false
+
+def Acc.br (a : Acc) (b : String) : Acc := if a.branches.contains b then a else { a with branches := a.branches ++ [b] }
+
+def keysOf (topics ids : List String) : List (String × String) := topics.flatMap fun T => ids.map fun i => (T, i)
+
+def showKeys (ks : List (String × String)) : String := ",".intercalate (ks.map fun (T, i) => esc T ++ "/" ++ esc i)
+
+/-- Compare the six dumps of a crash line with the model's. -/
+def cmpDumps (what : String) (pairs : List (String × Dump × Dump)) : Option String :=
+  match pairs.find? (fun (_, o, m) => o != m) with
+  | some (kw, o, m) => some s!"{what} {kw}: model {renderDump m} observed {renderDump o}"
+  | none => none
+
+/-! ### service-level cases -/
+
+def judgeSvcCrash (topics ids : List String) (ops : List Op) (unint : Option Dump) (k m : Nat) (post : Bool)
+    (obs : List String) (acc : Acc) : Except Verdict Acc := do
+  let what := s!"crash {k} {m} {if post then "post" else "pre"}"
+  let micros := ((ops[k]?).map Op.micros).getD []
+  let j? : Option Nat := if m == 0 then (if post && k < ops.length then some micros.length else none) else txIndex Micro.isTx micros m post
+  if obs == ["none"] then
+    match j? with
+    | none => return acc.br "crash-point-absent"
+    | some _ => throw (.mismatch s!"{what}: the model has this crash point, the implementation had no such transaction")
+  if obs == ["panic"] then throw (.specfail "restart-panics" what)
+  let some ss := sections obs | throw (.mismatch s!"{what}: unparsable observation")
+  let some j := j? | throw (.mismatch s!"{what}: the implementation had a transaction the model does not have")
+  let done := j == micros.length
+  let resume := canon (sec ss "resume"); let rdisk := canon (sec ss "rdisk")
+  let final := canon (sec ss "final"); let fdisk := canon (sec ss "fdisk")
+  let toldb := canonLog (sec ss "toldb"); let tolda := canonLog (sec ss "tolda")
+  let ids := dedup (ids ++ idsOf resume ++ idsOf rdisk ++ idsOf final ++ idsOf fdisk)
+  let keys := keysOf topics ids
+  let rec_ := recorded ops k done
+  let surv := survived ops k done
+  -- 1. the property on the observed output
+  let badDisk := keys.filter fun (T, i) =>
+    lvOf rdisk T i != lastLevel rec_ T i || presentIn rdisk T i != recordExpected rec_ T i ||
+    lvOf fdisk T i != lastLevel surv T i || presentIn fdisk T i != recordExpected surv T i
+  if !badDisk.isEmpty then
+    throw (.specfail "disk-tracks-last-non-ok" s!"{what}: {showKeys badDisk} rdisk {renderDump rdisk} fdisk {renderDump fdisk}")
+  if !resumeOK ops k done (lvOf resume) keys then
+    throw (.specfail "resume-level" s!"{what}: resumed {renderDump resume}")
+  let live := keys.filter fun (T, _) => !dormant surv T
+  let expectFinal : Lv := match done, unint with
+    | true, some u => lvOf u
+    | _, _ => lastLevel surv
+  if !finalOK (lvOf final) expectFinal live then
+    throw (.specfail "same-final-state" s!"{what}: final {renderDump final}")
+  let told := evsOf toldb ++ evsOf tolda
+  let hk := live.filter fun (T, i) => !silent surv T i
+  let badH := hk.filter fun (T, i) => lastTold told T i != lvOf final T i
+  let window := !post && (match ops[k]? with | some (.collect ..) => true | _ => false)
+  let mut acc := acc
+  if !badH.isEmpty then
+    let inflight : Option (String × String) := (ops[k]?).bind fun op => op.id?.map fun i => (op.topic, i)
+    if window && badH.all (fun key => some key == inflight) then
+      acc := { acc with known := acc.known <|> some ("notify-before-persist", s!"{what}: handlers of {showKeys badH} were told a level that never reached the disk") }
+    else
+      throw (.specfail "handlers-not-misled" s!"{what}: {showKeys badH} final {renderDump final} told {renderDump toldb} ++ {renderDump tolda}")
+  -- 2. the tie: model = implementation
+  let c := crashAt {} ops k j
+  let r0 := c.restart
+  let r := run r0 (ops.drop (k + 1))
+  let mids := ids
+  match cmpDumps what [
+      ("resume", resume, dumpOfStore r0.mem topics mids), ("rdisk", rdisk, dumpOfStore c.disk topics mids),
+      ("final", final, dumpOfStore r.mem topics mids), ("fdisk", fdisk, dumpOfStore r.disk topics mids),
+      ("toldb", toldb, dumpOfTold c.told topics), ("tolda", tolda, dumpOfTold (r.told.drop c.told.length) topics)] with
+  | some d => throw (.mismatch d)
+  | none => pure ()
+  acc := acc.br (if m == 0 then "crash-after-op" else if post then "crash-post-commit" else if window then "crash-in-window" else "crash-pre-commit-silent")
+  if !done && badH.isEmpty && window then acc := acc.br "window-harmless"
+  if keys.any (fun (T, i) => lvOf resume T i != 0) && k + 1 < ops.length then acc := { acc with nontrivial := true }
+  if keys.any (fun (T, i) => lvOf resume T i != 0) then acc := acc.br "resume-non-ok"
+  if keys.any (fun (T, i) => lastLevel rec_ T i == 0 && lastLevel (ops.take k) T i != 0) then acc := acc.br "recovered-before-crash"
+  return acc
+
+def svcOpBranch (s : Svc) (op : Op) : String :=
+  match op with
+  | .collect T _ l _ => (if s.closed T then "collect-on-closed-" else "collect-") ++ (if l == 0 then "ok-delete" else "put")
+  | .update _ _ l _ => if l == 0 then "update-puts-ok" else "update"
+  | .closeTopic _ => "close"
+  | .restoreTopic T => if s.closed T then "restore-closed" else "restore-live"
+  | .deleteTopic _ => "deltopic"
+
+def judgeSvc (topics : List String) (lines : Array String) : Verdict := Id.run do
+  let mut ops : List Op := []
+  let mut acc : Acc := {}
+  let mut unint : Option Dump := none
+  let mut ids : List String := []
+  for l in lines do
+    let (opT, obs) := splitObs (tokens l)
+    match opT with
+    | "mode" :: _ => pure ()
+    | ["uninterrupted"] =>
+      let some ss := sections obs | return .mismatch "uninterrupted: unparsable observation"
+      let s := run {} ops
+      let mem := canon (sec ss "mem"); let disk := canon (sec ss "disk"); let told := canonLog (sec ss "told")
+      let ids' := dedup (ids ++ idsOf mem ++ idsOf disk)
+      let keys := keysOf topics ids'
+      let bad := keys.filter fun (T, i) => lvOf disk T i != lastLevel ops T i || presentIn disk T i != recordExpected ops T i
+      if !bad.isEmpty then return .specfail "disk-tracks-last-non-ok" s!"uninterrupted: {showKeys bad} disk {renderDump disk}"
+      match cmpDumps "uninterrupted" [("mem", mem, dumpOfStore s.mem topics ids'), ("disk", disk, dumpOfStore s.disk topics ids'),
+                                      ("told", told, dumpOfTold s.told topics)] with
+      | some d => return .mismatch d
+      | none => pure ()
+      unint := some mem
+    | ["crash", k, m, ph] =>
+      let some k := k.toNat? | return .badop l
+      let some m := m.toNat? | return .badop l
+      if ph != "pre" && ph != "post" then return .badop l
+      match judgeSvcCrash topics ids ops unint k m (ph == "post") obs acc with
+      | .ok a => acc := a
+      | .error v => return v
+    | _ =>
+      match parseOp opT with
+      | some op =>
+        if !topics.contains op.topic then return .badop s!"topic not declared in the mode line: {l}"
+        let s := run {} ops
+        acc := acc.br (svcOpBranch s op)
+        let ntx := (op.micros.filter Micro.isTx).length
+        if !obs.isEmpty && obs != ["tx", toString ntx] then return .mismatch s!"op {ops.length} ({l}): model has {ntx} transactions"
+        ops := ops ++ [op]
+        match op.id? with
+        | some i => ids := dedup (ids ++ [i])
+        | none => pure ()
+      | none => return .badop l
+  match acc.known with
+  | some (k, d) => return .known k d
+  | none => return .ok acc.nontrivial acc.branches
+
+/-! ### node-level cases -/
+
+def _root_.Kap.C08.NOp.id? : NOp → Option String
+  | .point i .. => some i
+  | .taskRestart => none
+
+/-- number of `Collect` transactions (a transaction whose predecessor sub-step is the handler notification) among
+the first `j` sub-steps -/
+def collectTxBefore (ms : List NMicro) (j : Nat) : Nat :=
+  let rec go : List NMicro → Bool → Nat → Nat → Nat
+    | [], _, _, n => n
+    | x :: rest, prevNotify, pos, n =>
+      if pos ≥ j then n else
+      let isN := match x with | .svc (.notify ..) => true | _ => false
+      go rest isN (pos + 1) (if x.isTx && prevNotify then n + 1 else n)
+  go ms false 0 0
+
+def judgeNodeCrash (cfg : Cfg) (topics ids : List String) (ops : List NOp) (unint : Option Dump) (k m : Nat) (post : Bool)
+    (obs : List String) (acc : Acc) : Except Verdict Acc := do
+  let what := s!"crash {k} {m} {if post then "post" else "pre"}"
+  let b := nrun cfg {} (ops.take k)
+  let micros := ((ops[k]?).map (nplan cfg b)).getD []
+  let j? : Option Nat := if m == 0 then (if post && k < ops.length then some micros.length else none) else txIndex NMicro.isTx micros m post
+  if obs == ["none"] then
+    match j? with
+    | none => return acc.br "crash-point-absent"
+    | some _ => throw (.mismatch s!"{what}: the model has this crash point, the implementation had no such transaction")
+  if obs == ["panic"] then throw (.specfail "restart-panics" what)
+  let some ss := sections obs | throw (.mismatch s!"{what}: unparsable observation")
+  let some j := j? | throw (.mismatch s!"{what}: the implementation had a transaction the model does not have")
+  let lastTx := (micros.drop j).all (fun x => !x.isTx)
+  let done := j == micros.length || (post && lastTx)
+  let resume := canon (sec ss "resume"); let rdisk := canon (sec ss "rdisk")
+  let final := canon (sec ss "final"); let fdisk := canon (sec ss "fdisk")
+  let toldb := canonLog (sec ss "toldb"); let tolda := canonLog (sec ss "tolda")
+  let ids := dedup (ids ++ idsOf resume ++ idsOf rdisk ++ idsOf final ++ idsOf fdisk)
+  let keys := keysOf topics ids
+  -- 1. the property on the observed output
+  -- after a restart the memory is what the disk says, non-OK only
+  let badLoad := keys.filter fun (T, i) => lvOf resume T i != lvOf rdisk T i
+  if !badLoad.isEmpty then throw (.specfail "resume-level" s!"{what}: memory after restart differs from disk at {showKeys badLoad}")
+  let toldBefore := evsOf toldb
+  if done then
+    -- every id resumes, on every topic of the node, at the level last recorded (= last announced) for it
+    let badR := keys.filter fun (T, i) => lvOf resume T i != lastTold toldBefore T i
+    if !badR.isEmpty then throw (.specfail "resume-level" s!"{what}: {showKeys badR} resumed {renderDump resume} told {renderDump toldb}")
+    match unint with
+    | some u =>
+      if !finalOK (lvOf final) (lvOf u) keys then
+        throw (.specfail "same-final-state" s!"{what}: final {renderDump final} uninterrupted {renderDump u}")
+    | none => pure ()
+  let told := toldBefore ++ evsOf tolda
+  let badH := keys.filter fun (T, i) => lastTold told T i != lvOf final T i
+  let mut acc := acc
+  let nCollectTx := collectTxBefore micros micros.length
+  let doneCollectTx := collectTxBefore micros j
+  let inWindow : Option String :=   -- topic whose handlers were told while its transaction had not committed
+    if !post then
+      match micros[j]?, (if j == 0 then none else micros[j - 1]?) with
+      | some (.svc (.txPut T _)), some (.svc (.notify ..)) => some T
+      | some (.svc (.txDel T _)), some (.svc (.notify ..)) => some T
+      | _, _ => none
+    else none
+  let split := nCollectTx == 2 && doneCollectTx == 1
+  if !badH.isEmpty then
+    let inflight := (ops[k]?).bind NOp.id?
+    if done then
+      throw (.specfail "handlers-not-misled" s!"{what}: {showKeys badH} final {renderDump final} told {renderDump toldb} ++ {renderDump tolda}")
+    else if badH.all (fun (T, i) => some i == inflight && (split || inWindow == some T)) then
+      if split then
+        acc := { acc with known := acc.known <|> some ("two-topic-split", s!"{what}: event recorded on the anonymous topic only; {showKeys badH} end in a level their handlers were not told") }
+      else
+        acc := { acc with known := acc.known <|> some ("notify-before-persist", s!"{what}: handlers of {showKeys badH} were told a level that never reached the disk") }
+    else
+      throw (.specfail "handlers-not-misled" s!"{what}: {showKeys badH} final {renderDump final} told {renderDump toldb} ++ {renderDump tolda}")
+  -- 2. the tie
+  let c := ncrashAt cfg {} ops k j
+  let r0 := c.restart cfg
+  let r := nrun cfg r0 (ops.drop (k + 1))
+  match cmpDumps what [
+      ("resume", resume, dumpOfStore r0.svc.mem topics ids), ("rdisk", rdisk, dumpOfStore c.svc.disk topics ids),
+      ("final", final, dumpOfStore r.svc.mem topics ids), ("fdisk", fdisk, dumpOfStore r.svc.disk topics ids),
+      ("toldb", toldb, dumpOfTold c.svc.told topics), ("tolda", tolda, dumpOfTold (r.svc.told.drop c.svc.told.length) topics)] with
+  | some d => throw (.mismatch d)
+  | none => pure ()
+  let cls : String :=
+    if done then "crash-after-op" else if split then "crash-between-topics" else
+    match inWindow with
+    | some T => if T == anonName then "crash-in-window-anon" else "crash-in-window-named"
+    | none => if post then "crash-post-update" else "crash-pre-update"
+  acc := acc.br cls
+  if keys.any (fun (T, i) => lvOf resume T i != 0) && k + 1 < ops.length then acc := { acc with nontrivial := true }
+  if keys.any (fun (T, i) => lvOf resume T i != 0) then acc := acc.br "resume-non-ok"
+  return acc
+
+def nodeOpBranches (cfg : Cfg) (w : World) (op : NOp) : List String :=
+  match op with
+  | .taskRestart => ["taskrestart"]
+  | .point id l _ =>
+    match w.groups id with
+    | some cur => [if emits cfg cur l then "emit" else if cfg.sco && cur == l then "suppressed-unchanged" else if cfg.noRec && l == 0 && cur != 0 then "suppressed-norecovery" else "quiet-ok"]
+    | none =>
+      let (cur, fix) := restoreEvent cfg w.svc id
+      let a := cfg.anon.bind (fun T => w.svc.mem T id); let n := cfg.named.bind (fun T => w.svc.mem T id)
+      [if fix.isEmpty then (if cur == 0 then "newgroup-ok" else "newgroup-restored") else
+        (if a.isSome && n.isSome then "restore-anon-wins" else "restore-named-to-anon"),
+       if emits cfg cur l then "emit" else if cfg.sco && cur == l then "suppressed-unchanged" else if cfg.noRec && l == 0 && cur != 0 then "suppressed-norecovery" else "quiet-ok"]
+
+def judgeNode (cfg : Cfg) (lines : Array String) : Verdict := Id.run do
+  let topics := cfg.anon.toList ++ cfg.named.toList
+  let mut ops : List NOp := []
+  let mut acc : Acc := {}
+  let mut unint : Option Dump := none
+  let mut ids : List String := []
+  for l in lines do
+    let (opT, obs) := splitObs (tokens l)
+    match opT with
+    | "mode" :: _ => pure ()
+    | ["uninterrupted"] =>
+      let some ss := sections obs | return .mismatch "uninterrupted: unparsable observation"
+      let w := nrun cfg {} ops
+      let mem := canon (sec ss "mem"); let disk := canon (sec ss "disk"); let told := canonLog (sec ss "told")
+      let ids' := dedup (ids ++ idsOf mem ++ idsOf disk)
+      let keys := keysOf topics ids'
+      -- uninterrupted run: what is on disk is the last announced level, and nothing is recorded for an id that is OK
+      let bad := keys.filter fun (T, i) => lvOf disk T i != lastTold (evsOf told) T i || (presentIn disk T i && lvOf disk T i == 0)
+      if !bad.isEmpty then return .specfail "disk-tracks-last-non-ok" s!"uninterrupted: {showKeys bad} disk {renderDump disk} told {renderDump told}"
+      match cmpDumps "uninterrupted" [("mem", mem, dumpOfStore w.svc.mem topics ids'), ("disk", disk, dumpOfStore w.svc.disk topics ids'),
+                                      ("told", told, dumpOfTold w.svc.told topics)] with
+      | some d => return .mismatch d
+      | none => pure ()
+      unint := some mem
+    | ["crash", k, m, ph] =>
+      let some k := k.toNat? | return .badop l
+      let some m := m.toNat? | return .badop l
+      if ph != "pre" && ph != "post" then return .badop l
+      match judgeNodeCrash cfg topics ids ops unint k m (ph == "post") obs acc with
+      | .ok a => acc := a
+      | .error v => return v
+    | _ =>
+      match parseNOp opT with
+      | some op =>
+        let w := nrun cfg {} ops
+        for b in nodeOpBranches cfg w op do acc := acc.br b
+        let ntx := ((nplan cfg w op).filter NMicro.isTx).length
+        if !obs.isEmpty && obs != ["tx", toString ntx] then return .mismatch s!"op {ops.length} ({l}): model has {ntx} transactions"
+        ops := ops ++ [op]
+        match op.id? with
+        | some i => ids := dedup (ids ++ [i])
+        | none => pure ()
+      | none => return .badop l
+  match acc.known with
+  | some (k, d) => return .known k d
+  | none => return .ok acc.nontrivial acc.branches
+
+def judge (_id : String) (lines : Array String) : Verdict :=
+  match lines.toList.head? with
+  | none => .badop "empty case"
+  | some first =>
+    match parseMode (tokens first) with
+    | some (.svc topics) => judgeSvc topics lines
+    | some (.node cfg) => judgeNode cfg lines
+    | none => .badop s!"first line must be the mode line: {first}"
+
+end Kap.C08.Drv
+
+def main : IO Unit := Kap.driverMain Kap.C08.Drv.judge
